@@ -342,3 +342,63 @@ def abort_while_other_calls_hang(ctx, n_hung=40):
                  f"returned, its operation was invoked {len(late)} more time(s)", {"hang": desc})
     elif final != "AbortRetryError":
         ctx.cnt["abort_while_hanging_ended_otherwise:" + str(final)] += 1
+
+
+def interrupt_while_waiting_for_a_timed_attempt(ctx, rounds=3):
+    """C13, real threads and a real interrupt: the sync runner waits for an attempt that runs under attempt_timeout_s (in a worker thread)
+    when Ctrl-C / a SIGTERM handler calling sys.exit() arrives in the calling thread.  The interrupt propagates at once - not when the
+    operation happens to return.  Causal verdict, no duration is judged: the operation stays blocked until the harness releases it AFTER
+    call()/execute() has ended; if it gives up waiting first (3 s), the runner was holding the interrupt back until the operation returned."""
+    import signal
+
+    if threading.current_thread() is not threading.main_thread():
+        ctx.cnt["interrupt_scenarios_skipped_not_main_thread"] += 1
+        return
+    old = signal.signal(signal.SIGINT, signal.default_int_handler)
+    main_ident = threading.main_thread().ident
+    try:
+        for k in range(rounds):
+            release, started = threading.Event(), threading.Event()
+            how = []
+
+            def op():
+                started.set()
+                how.append("released" if release.wait(3.0) else "gave-up-waiting")
+                return "late"
+
+            def interrupter():
+                if started.wait(5.0):
+                    env._REAL["sleep"](0.05)
+                    # a real signal aimed at the calling thread (interrupt_main() only sets a flag: it does not wake a thread that is
+                    # blocked in a lock wait, which is exactly where the runner is)
+                    signal.pthread_kill(main_ident, signal.SIGINT)
+
+            r = Retry(classifier=lambda e: ErrorClass.TRANSIENT, strategy=lambda c: 0.0, deadline_s=1000.0, max_attempts=2, attempt_timeout_s=30.0)
+            meth = ["call", "execute", "call"][k % 3]
+            t = threading.Thread(target=interrupter, daemon=True)
+            t.start()
+            final = None
+            try:
+                getattr(r, meth)(op, sleeper=lambda s_: None)
+                final = "returned"
+            except KeyboardInterrupt:
+                final = "KeyboardInterrupt"
+            except BaseException as x:  # noqa: BLE001
+                final = type(x).__name__
+            blocked_when_ended = not how
+            release.set()
+            t.join(5.0)
+            for _ in range(100):
+                if how:
+                    break
+                env._REAL["sleep"](0.02)
+            ctx.inc("runs")
+            ctx.inc("interrupts_while_waiting_for_a_timed_attempt")
+            desc = {"entry": "retry." + meth, "final": final, "operation_still_blocked_when_the_run_ended": blocked_when_ended, "operation": how}
+            if final == "KeyboardInterrupt" and not blocked_when_ended:
+                ctx.viol("interrupt-held-back-until-the-operation-returned", f"[retry.{meth}] KeyboardInterrupt arrived while the runner waited for a timed attempt; it was delivered only after the operation had given up waiting "
+                         f"to be released ({how}): the interrupt was delayed until the operation returned", {"hang": desc})
+            elif final != "KeyboardInterrupt":
+                ctx.viol("cancellation-not-propagated", f"[retry.{meth}] KeyboardInterrupt arrived while the runner waited for a timed attempt; the run ended with {final}", {"hang": desc})
+    finally:
+        signal.signal(signal.SIGINT, old)
